@@ -85,6 +85,7 @@ type Op struct {
 	Point string `json:"point,omitempty"` // imutes: the yield point of Silencer.Mutes at which Inj runs
 	Inj   []Op   `json:"inj,omitempty"`   // imutes: store operations injected into the call (dt ignored)
 	Warm  bool   `json:"warm,omitempty"`  // imutes: an ordinary Mutes for the label set first
+	Dead  int    `json:"dead,omitempty"`  // bit j: the j-th probe of Mutes runs with an ALREADY-CANCELLED context first (then live); api: cancelled request; imutes: context cancelled at the yield point
 	Sel   int    `json:"sel,omitempty"`   // imutes: draw used to choose Point when it is empty
 	Now   int64  `json:"now,omitempty"`   // observed
 	Out   string `json:"out,omitempty"`   // observed (informational)
@@ -105,12 +106,16 @@ var lsets = []model.LabelSet{
 	{"a": "2", "b": "x1"},
 	{"a": "x1", "ü": "1"},
 	{"b": "2"},
+	// values with a line break / control characters: "." never matches a line break (no s flag), so wildcard
+	// regexes treat these differently from any prefix / suffix / substring shortcut
+	{"a": "x1\n"},
+	{"a": "1\n2", "b": "\tx1\r"},
 }
 
 var (
 	names    = []string{"a", "b", "ü"}
-	values   = []string{"", "1", "2", "x1"}
-	rePats   = []string{"1|2", "x.+", ".*", "[12]?"}
+	values   = []string{"", "1", "2", "x1", "x1\n", "1\n2", "\tx1\r"}
+	rePats   = []string{"1|2", "x.+", ".*", "[12]?", ".+", "x.*", ".*1", ".*x1.*", "x1", ".*2"}
 	badPat   = "("
 	setPool  = [][][]Mat{
 		{{{0, "a", "1"}}},
@@ -123,6 +128,13 @@ var (
 		{{{3, "b", "[12]?"}}},
 		{{{0, "a", "2"}}, {{0, "a", "x1"}, {2, "ü", "2"}}},
 		{{{2, "b", ""}, {1, "a", ".*"}}},
+		// wildcard shapes (literal, .+, lit.*, .*lit, .*lit.*), positive and negated
+		{{{1, "a", ".+"}}},
+		{{{3, "a", "x.*"}}},
+		{{{1, "a", ".*1"}}, {{1, "b", ".*x1.*"}}},
+		{{{1, "a", "x1"}}},
+		{{{3, "b", ".+"}, {1, "a", ".*2"}}},
+		{{{3, "a", ".*x1.*"}, {2, "a", ""}}},
 	}
 	peerIDs = []string{"p1", "p2", "p3"}
 	allIDs  = []string{"p1", "p2", "p3", "pbad", "q1", "q2", "q3", "q4"}
@@ -532,10 +544,21 @@ func (r *runner) dump(now int64) {
 	}
 }
 
-func (r *runner) mutes(i int, now int64) {
+func (r *runner) mutes(i int, now int64) { r.mutesCtx(i, now, false) }
+
+// mutesCtx: dead = the call is made with an already-cancelled context (an abandoned request). The store ignores the
+// context, so the call behaves - verdict, marker, cache - exactly like any other (the model knows no contexts).
+func (r *runner) mutesCtx(i int, now int64, dead bool) {
 	ls := lsets[i]
 	m := marker.NewAlertMarker()
-	ctx := marker.WithContext(context.Background(), m)
+	base := context.Background()
+	if dead {
+		c, cancel := context.WithCancel(base)
+		cancel()
+		base = c
+		r.tags["mutes/cancelled-context"]++
+	}
+	ctx := marker.WithContext(base, m)
 	{ // which branch of Mutes this call takes (histogram only)
 		_, cv, cids := r.sl.VerifCacheEntry(ls.Fingerprint())
 		upto := cv == r.s.Version()
@@ -657,6 +680,8 @@ func (r *runner) interrupted(op *Op, now int64) {
 			r.tags["inject/"+op.Inj[j].Kind]++
 		}
 	}
+	midCtx, cancelMid := context.WithCancel(context.Background())
+	defer cancelMid()
 	silence.SetVerifYield(func(point string, a ...any) {
 		if fired || point != op.Point || len(a) == 0 || a[0] != any(fp) {
 			return
@@ -665,10 +690,14 @@ func (r *runner) interrupted(op *Op, now int64) {
 		if time.Now().UnixNano() != now {
 			r.t.Fatalf("clock moved inside Mutes")
 		}
+		if op.Dead != 0 {
+			cancelMid()
+			r.tags["imutes/context-cancelled-mid-way"]++
+		}
 		inject()
 	})
 	m := marker.NewAlertMarker()
-	muted := r.sl.Mutes(marker.WithContext(context.Background(), m), ls)
+	muted := r.sl.Mutes(marker.WithContext(midCtx, m), ls)
 	silence.SetVerifYield(nil)
 	by := m.Status(fp).SilencedBy
 	ids := make([]string, len(by))
@@ -943,9 +972,38 @@ func (r *runner) exec(i int) {
 		}
 	case "api":
 		req := httptest.NewRequest("GET", "/api/v2/alerts", nil)
+		var abandoned []int // label sets whose status evaluation ran with the request context already cancelled
+		if op.Dead != 0 {
+			// the client goes away while the handler evaluates the status of an alert: the request context is cancelled
+			// inside that Silencer.Mutes call (at its first yield point); the handler then gives up with a 500
+			c, cancel := context.WithCancel(req.Context())
+			defer cancel()
+			req = req.WithContext(c)
+			silence.SetVerifYield(func(point string, a ...any) {
+				if point != "mutes:after-cache-read" || len(a) == 0 || len(abandoned) > 0 {
+					return
+				}
+				for j, ls := range lsets {
+					if a[0] == any(ls.Fingerprint()) {
+						abandoned = append(abandoned, j)
+						cancel()
+					}
+				}
+			})
+			r.tags["api/request-cancelled-mid-way"]++
+		}
 		tr := true
 		resp := r.api.VerifGetAlerts(alert_ops.GetAlertsParams{HTTPRequest: req, Active: &tr, Inhibited: &tr, Silenced: &tr, Unprocessed: &tr})
+		silence.SetVerifYield(nil)
 		ok, isOK := resp.(*alert_ops.GetAlertsOK)
+		if !isOK && op.Dead != 0 {
+			// an abandoned request may fail; what it must not do is leave anything behind: the usual evaluation of the
+			// alert it was working on is exact (judged, and compared with the model, which never saw the abandoned call)
+			for _, j := range abandoned {
+				r.mutes(j, now)
+			}
+			break
+		}
 		if !isOK {
 			r.violate("get-alerts-failed", fmt.Sprintf("%T", resp))
 			break
@@ -982,7 +1040,10 @@ func (r *runner) exec(i int) {
 	case "tick":
 	}
 	r.dump(now)
-	for _, j := range op.Mutes {
+	for k, j := range op.Mutes {
+		if op.Dead&(1<<k) != 0 {
+			r.mutesCtx(j, now, true)
+		}
 		r.mutes(j, now)
 	}
 }
@@ -1199,6 +1260,9 @@ func (r *runner) genOp(gs *genState, inject bool) Op {
 			op.Mutes = append(op.Mutes, j)
 		}
 		vh.Shuffle(g, op.Mutes)
+		if g.Chance(1, 3) {
+			op.Dead = 1 + g.Intn(15)
+		}
 		return op
 	}
 	if inject {
@@ -1210,6 +1274,9 @@ func (r *runner) genOp(gs *genState, inject bool) Op {
 		}
 	}
 	vh.Shuffle(g, op.Mutes)
+	if g.Chance(1, 4) {
+		op.Dead = 1 + g.Intn(15)
+	}
 	return op
 }
 
